@@ -66,9 +66,15 @@ class SourceFailed(RuntimeError):
     """Raised by the record iterator handed to `rewrite_jsonl` at a chosen position."""
 
 
-def _records(n: int, raise_at: Optional[int]):
+def _records(n: int, raise_at: Optional[int], bad: Optional[str] = None):
     for i in range(n):
         if raise_at is not None and i == raise_at:
+            if bad == "set":
+                yield {"i": i, "v": {1, 2}}           # unserialisable leaf -> TypeError in json.dumps
+                continue
+            if bad == "surrogate":
+                yield {"i": i, "v": "caf\ud800"}      # serialises, cannot be encoded -> UnicodeEncodeError
+                continue
             raise SourceFailed(f"record source failed at {i}")
         yield {"i": i}
 
@@ -88,6 +94,18 @@ def _n(case: dict) -> int:
 def _call(caller: str, d: Path, case: Optional[dict] = None):
     case = case or {}
     from clematis.engine import snapshot as S
+    if caller == "write_lines" and case.get("bad"):
+        body = S._canonical_json(PAYLOAD)
+        cut = {"start": 1, "middle": len(body) // 2, "end": len(body) - 1}[case.get("pos", "end")]
+        body = body[:cut] + "\ud800" + body[cut:]     # a body that cannot be encoded
+        return lambda: S._write_lines(str(d / "snapshot-e2.full.json"), {"schema": "snapshot:v1", "mode": "full", "etag_to": "e2"},
+                                      body, codec="none", level=0)
+    if caller == "auto_full" and case.get("bad"):
+        pl = dict(PAYLOAD)
+        pl["k"] = {1, 2} if case["bad"] == "set" else "caf\ud800"
+        return lambda: S.write_snapshot_auto(str(d), etag_from=None, etag_to="e2", payload=pl)
+    if caller == "sidecar" and case.get("bad"):
+        return lambda: S._write_sidecar_meta(str(d / "state_a.json"), schema_version="v\ud800")
     if caller == "write_lines":
         return lambda: S._write_lines(str(d / "snapshot-e2.full.json"), {"schema": "snapshot:v1", "mode": "full", "etag_to": "e2"},
                                       S._canonical_json(PAYLOAD), codec="none", level=0)
@@ -101,7 +119,7 @@ def _call(caller: str, d: Path, case: Optional[dict] = None):
         from clematis.io import log as L
         if "n" not in case and case.get("raise_at") is None:
             return lambda: L.rewrite_jsonl("t1.jsonl", [{"b": 1, "a": "x"}, {"turn": 2}])
-        return lambda: L.rewrite_jsonl("t1.jsonl", _records(_n(case), case.get("raise_at")))
+        return lambda: L.rewrite_jsonl("t1.jsonl", _records(_n(case), case.get("raise_at"), case.get("bad")))
     if caller == "write_snapshot":
         ctx = types.SimpleNamespace(cfg={"t4": {"snapshot_dir": str(d)}}, agent_id="a", turn_id=3)
         return lambda: S.write_snapshot(ctx, {"store": None}, "etag-9", applied=1, deltas=[])
@@ -260,7 +278,10 @@ class CallerComp(Component):
             dest, data = g["dest"], g["data"]
         from harness.props.c08 import write_loop_present
         ra = case.get("raise_at")
-        if case["caller"] == "rewrite_jsonl" and ra is not None and 0 <= ra < _n(case):
+        if case.get("bad") and (case["caller"] != "rewrite_jsonl" or (ra is not None and 0 <= ra < _n(case))):
+            # the content cannot be serialised / encoded: the failure precedes every FS step (C08_serialise_before_temp)
+            kind = "contentfail_swallowed" if kind == "swallow" else "contentfail"
+        elif case["caller"] == "rewrite_jsonl" and ra is not None and 0 <= ra < _n(case):
             # the record source fails: nothing may be written at all (the payload is built before the single atomic write)
             kind = "iterfail"
         return {"c": "atomic.caller", "kind": kind, "loop": write_loop_present(), "retries": RETRIES, "dest": dest, "r1": rs[0], "r2": rs[1],
@@ -345,6 +366,8 @@ class CallerComp(Component):
             t.add(f"records={case['n']}")
         if case.get("raise_at") is not None:
             t.add("source_raises")
+        if case.get("bad"):
+            t.add(f"content_fail:{case['bad']}")
         if any(s == "open_direct" for s, _ in io["trace"]):
             t.add("direct_open_for_write")
         if t:
@@ -396,6 +419,17 @@ def run(ctx, run_cases) -> None:
     for n in ((4097, 10000) if quick else (1025, 4097, 10000)):
         for ra in sorted({0, 1, n // 2, 4095, 4096, n - 1}):
             cases.append({"caller": "rewrite_jsonl", "old": True, "n": n, "raise_at": ra, "script": []})
+    # contents that cannot be serialised / encoded, at the start, in the middle and at the end
+    for bad in ("set", "surrogate"):
+        for n, ra in ((3, 0), (3, 1), (3, 2), (5000, 0), (5000, 2500), (5000, 4999)):
+            cases.append({"caller": "rewrite_jsonl", "old": True, "n": n, "raise_at": ra, "bad": bad, "script": []})
+        if bad == "set":  # (_canonical_json escapes surrogates: ensure_ascii=True, so only the leaf type can fail there)
+            cases.append({"caller": "auto_full", "old": True, "bad": bad, "script": []})
+            cases.append({"caller": "auto_full", "old": True, "bad": bad, "script": ["ok", "ok", "ok", "err:28"]})
+    for pos in ("start", "middle", "end"):
+        cases.append({"caller": "write_lines", "old": True, "bad": "surrogate", "pos": pos, "script": []})
+    cases.append({"caller": "sidecar", "old": True, "bad": "surrogate", "script": []})
+    cases.append({"caller": "sidecar", "old": False, "bad": "surrogate", "script": ["ok", "crash"]})
     outs = [safe_impl(CALLERS, c) for c in cases]
     run_cases(ctx, CALLERS, cases, outs)
     for n in ((10000,) if quick else (4097, 10000)):
